@@ -8,7 +8,10 @@ specialised per length, ASCII spellings):
  C12.kind    get_birth_date returns a date (or None where the format has unknown dates),
              get_gender returns 'M' or 'F' (or None), get_birth_year/month an int (or None);
  C12.split   the parts returned by split() are the positions of the canonical number, in order,
-             each exactly once."""
+             each exactly once.
+ C12.compact-first  the getters are analysed from the canonical form, but validate() also accepts spellings with separators and
+             surrounding blanks; a getter therefore has to normalise its argument before it looks at positions: no subscript of
+             the raw parameter before it is rebound (`number = compact(number)` / `number = validate(number)`)."""
 import ast
 
 from ..common import Report, rel, src
@@ -124,6 +127,33 @@ def range_cuts(rep, prog):
     return n
 
 
+def compact_first(rep, prog):
+    n_ = 0
+    for mn in prog.number_modules():
+        m = prog.mods[mn]
+        for name, fn in sorted(m.funcs.items()):
+            if not (name.startswith('get_') or name in ('info', 'split')) or not fn.args.args:
+                continue
+            par = fn.args.args[0].arg
+            stores = [(x.lineno, x.col_offset) for x in ast.walk(fn) if isinstance(x, ast.Name) and x.id == par and isinstance(x.ctx, ast.Store)]
+            first = min(stores) if stores else None
+            # the statement that rebinds the parameter evaluates its right-hand side first
+            rebinding = [st for st in ast.walk(fn) if isinstance(st, ast.Assign) and any(isinstance(t, ast.Name) and t.id == par for t in st.targets)]
+            first_end = min([(st.end_lineno, st.end_col_offset) for st in rebinding], default=None)
+            early = []
+            for x in ast.walk(fn):
+                if isinstance(x, ast.Subscript) and isinstance(x.value, ast.Name) and x.value.id == par:
+                    if first_end is None or (x.lineno, x.col_offset) <= first_end:
+                        early.append(x)
+            n_ += 1
+            rep.check(not early, 'C12.compact-first', rel(m.path), name, src(early[0]) if early else par, early[0].lineno if early else fn.lineno,
+                      '%s.%s() reads positions of its raw argument (%s) %s: for a valid number written with separators or surrounding blanks, which '
+                      'validate() accepts, these are other characters than in the canonical form'
+                      % (mn.replace('stdnum.', ''), name, src(early[0]) if early else '', 'before it is rebound to the compact form' if first else 'and never compacts it'),
+                      what='%s.%s: no subscript of the raw parameter before it is normalised' % (mn.replace('stdnum.', ''), name))
+    return n_
+
+
 def check(tier):
     from ..strabs.run import analyse_functions, get_interp
     from ..reg import ReaderModel, Registry, registry_files
@@ -200,6 +230,8 @@ def check(tier):
     if range_cuts(rep, prog) < 1:
         rep.error('C12.range-cut matched no table lookup by string range (ismn.split confirmed on the reference tree)')
     rep.expect_at_least('C12.total', 60, 'getter functions')
+    rep.unit('getters read for C12.compact-first', compact_first(rep, prog))
+    rep.expect_at_least('C12.compact-first', 60, 'getter functions')
     rep.not_decided = ['that a returned date equals what the digits mean', 'functions with more than one required parameter'] + \
                       ['%s: %s' % kv for kv in sorted(scope.C12_UNDECIDED_SINKS.items())]
     return rep.finish()
